@@ -240,3 +240,30 @@ class PmfPredict(Contract):
         return {"confirmed": bool(bad), "key": "C10:EG._pmf_predict:mixture",
                 "what": f"ExponentiatedGradient._pmf_predict with weights_ {w.tolist()} labelled {list(w.index)}: P(1) = {got.tolist()}, weighted mixture of the stored predictors = {want.tolist()}",
                 "replay": {"X": X.tolist(), "weights": w.tolist(), "weights_index": list(w.index), "got": got.tolist(), "expected": want.tolist()}}
+
+
+class ThresholderPredict(Predict):
+    """InterpolatedThresholder.predict: label 1 exactly when the reported P(1) of the row is at least a uniform draw; one draw per row from the generator
+    derived from the CALLER'S random_state (whatever its value - 0 is a seed like any other), pmf of the given X and sensitive features."""
+    source, function = "fairlearn/postprocessing/_interpolated_thresholder.py", "InterpolatedThresholder.predict"
+
+    def __init__(self):
+        super().__init__(True)
+        self.variant = ""
+
+    def params(self, eng, st):
+        super().params(eng, st)
+        self.sf = Abstract("sensitive_features_arg")
+        st.env["sensitive_features"] = self.sf
+        st.env["self"] = Obj("InterpolatedThresholder", {})
+
+    def on_truth(self, eng, st, v):
+        if v is self.rs_in:
+            return Bool("callers_random_state_is_truthy")          # e.g. the integer seed 0 is falsy
+        return NotImplemented
+
+    def on_call(self, eng, st, node, name, recv, args, kwargs):
+        if name == "_pmf_predict" and isinstance(recv, Obj):
+            eng.oblige(st, "pmf_of_the_given_X_and_sensitive_features", BoolVal(bool(args) and args[0] is self.X and kwargs.get("sensitive_features") is self.sf), "wiring", node)
+            return Abstract("pmf")
+        return super().on_call(eng, st, node, name, recv, args, kwargs)
